@@ -205,3 +205,88 @@ _old_obligations = obligations
 def obligations():
     from props import c11_lower
     return _old_obligations() + _string_obs() + c11_lower.obligations()
+
+# ----------------------------------------------------------------------------- O11.6 multi-line string literals: every line's content is kept verbatim
+def ob_multiline_literal(r, tier, seed, lines, items):
+    W = e2.fresh_world(LCRATES)
+    CEX = [a for a in W.tt.by_name.get('Expr', []) if a.crate == 'cst'][0]; ME = [a for a in W.tt.by_name.get('MultilineStrExpr', []) if a.crate == 'cst'][0]
+    AEX = W.tt.find_adt(['ast', 'ast', 'Expr'], 'ast')
+    ALPH = ['a', ' ', '\t', '\\', '"', 'é']
+    r.bounds = 'multi-line string tokens of %d line(s); each line = indentation in {"", " ", "\\t "} + the marker \\\\\\\\ + %d content characters, each lazily one of %s (so contents may start or end with blanks and contain backslashes and quotes)' % (lines, items, [repr(c) for c in ALPH])
+    r.assumptions = ['the token text is one the lexer produces for a multi-line string (every line: blanks, `\\\\\\\\`, content; checked for the scanner by O12.2/O11.5)', 'cst::MultilineStrExpr::value / SyntaxToken text access are stubbed by the token text; MySyntaxNodePtr opaque',
+                     'oracle: the literal denotes the line contents after the marker, verbatim (no escape processing, trailing blanks kept), joined by newlines; the emitted Go literal, read by a reference decoder, must denote exactly that']
+    cur = {}
+    def token_stub(ex, a): return ms.some(Opaque('token', text=cur['text']))
+    for nm in list(W.methods.get('value', [])):
+        if 'nodes.rs' in nm[1] and nm[2] is not None and nm[2].self_key == 'MultilineStrExpr': W.stubs[nm[1]] = token_stub
+    def ov(f, g):
+        if 'SyntaxToken' in g and g.endswith('::to_string'):
+            def m_token_to_string(ex, f_, a): return Str(list(ex.deref(a[0]).text.chars))
+            return m_token_to_string
+        if g.endswith(' as CstNode>::syntax'):
+            def m_cst_syntax(ex, f_, a):
+                n = ex.deref(a[0])
+                while isinstance(n, Agg) and n.fields and isinstance(n.fields[0], Agg): n = n.fields[0]
+                return Ref(n.fields, 0)
+            return m_cst_syntax
+        if 'SyntaxNodePtr' in g and g.endswith('::new'):
+            def m_nodeptr_new(ex, f_, a): return Opaque('astptr')
+            return m_nodeptr_new
+        if g.endswith('::text_range'):
+            def m_text_range(ex, f_, a): return Agg('TextRange', 0, [0, 1])
+            return m_text_range
+        return None
+    W.overrides = [ov]
+    def entry(ex):
+        text = ''; want = []
+        for li in range(lines):
+            ind = ex.choose([(True, ''), (True, ' '), (True, '\t ')])
+            content = ''.join(ex.choose([(True, c) for c in ALPH]) for _ in range(items))
+            text += ('\n' if li else '') + ind + '\\\\' + content
+            want.append(content)
+        ex.notes['text'] = text
+        cur['text'] = mkstr(text)
+        node = Agg(CEX.key, CEX.vindex('MultilineStrExpr'), [Agg(ME.key, 0, [Opaque('syntaxnode')])])
+        LC = [a for a in W.tt.by_name.get('LowerCtx', []) if a.crate == 'ast'][0]
+        DI = W.tt.find_adt(['diagnostics', 'Diagnostics'], 'diagnostics')
+        ctxv = Agg(LC.key, 0, [Agg(DI.key, 0, [PyVec([])]) if (f[1] and 'resolved_path' in f[1] and f[1]['resolved_path']['path'].endswith('Diagnostics')) else Opaque('ctx.' + str(f[0])) for f in LC.variants[0].fields])
+        h = {0: ctxv}
+        res = ex.call('lower::lower_expr_with_args', [Ref(h, 0), node, PyVec([])], 'ast')
+        if res.idx == 0: return text, 'rejected', None, '\n'.join(want)
+        e = res.fields[0]
+        if AEX.variants[e.idx].name != 'EString': return text, 'not-a-string', None, '\n'.join(want)
+        h2 = {0: e.fields[0]}
+        lit = ex.call('pprint::go_pprint::escape_go_string', [Ref(h2, 0)], 'compiler')
+        return text, 'ok', ms.pystr(lit), '\n'.join(want)
+    res = e2.explore(r, W, entry, [])
+    for p in res:
+        r.cases += 1
+        if p.kind != 'ok':
+            if not any(f.key == 'panic' for f in r.findings): r.findings.append(Finding('panic', 'lowering the multi-line string %r panics: %s' % ((p.notes or {}).get('text'), p.value), {}, False, 'not replayed'))
+            continue
+        text, st, lit, want = p.value
+        r.nontrivial += 1
+        got = None if lit is None else py_go_decode(lit)
+        if st != 'ok' or got is None or ''.join(map(chr, got)) != want:
+            if any(f.key == 'multiline-literal-changed' for f in r.findings): continue
+            ok_, detail = replay_multiline(text, want)
+            r.findings.append(Finding('multiline-literal-changed', 'multi-line string %r denotes %r; lowering + printing give %s' % (text, want, st if st != 'ok' else repr(''.join(map(chr, got)) if got is not None else lit)), {'token': text, 'want': want}, ok_, detail))
+        elif len(r.samples) < 3: r.samples.append({'token': text, 'value': want})
+
+def replay_multiline(text, want):
+    src = 'fn main() -> unit {\n  let s =\n%s\n  ;\n  string_println(s)\n}\n' % '\n'.join('    ' + l for l in text.split('\n'))
+    d_ = tempfile.mkdtemp(prefix='vf-c11-')
+    try:
+        open(os.path.join(d_, 'main.gom'), 'w').write(src)
+        out = subprocess.run([build.compiler_bin(), 'run', '--dump-go', os.path.join(d_, 'main.gom')], capture_output=True, text=True, timeout=60)
+    finally: shutil.rmtree(d_, ignore_errors=True)
+    m = re.search(r'string = "((?:[^"\\]|\\.)*)"', out.stdout) or re.search(r'string_println\("((?:[^"\\]|\\.)*)"\)', out.stdout)
+    if not m: return False, 'native CLI: no string literal found: %s' % (out.stdout + out.stderr)[-200:]
+    got = py_go_decode(m.group(1)); got = None if got is None else ''.join(map(chr, got))
+    return got != want, 'goml source with that literal emits Go "%s", which denotes %r; the source denotes %r' % (m.group(1), got, want)
+
+import re
+_c11_obs2 = obligations
+def obligations():
+    return _c11_obs2() + [Ob('O11.6-multiline-literal-3', 'multi-line string fidelity: 3 lines, 1 content character', ob_multiline_literal, ('quick', 'thorough'), 5, dict(lines=3, items=1)),
+                          Ob('O11.6-multiline-literal-2', 'multi-line string fidelity: 2 lines, 2 content characters', ob_multiline_literal, ('quick', 'thorough'), 10, dict(lines=2, items=2))]
